@@ -76,6 +76,7 @@ func ExecRace(c RaceCase) hx.Verdict {
 			panA = try(func() {
 				atomic.AddInt32(&ready, 1)
 				for atomic.LoadInt32(&ready) < 2 {
+					runtime.Gosched()
 				}
 				notDoneBefore = !parent.IsDone()
 				p := scope.ChildParams{}
@@ -92,6 +93,7 @@ func ExecRace(c RaceCase) hx.Verdict {
 			panB = try(func() {
 				atomic.AddInt32(&ready, 1)
 				for atomic.LoadInt32(&ready) < 2 {
+					runtime.Gosched()
 				}
 				for i := 0; i < delay; i++ {
 					atomic.AddInt32(&spinSink, 1)
